@@ -16,7 +16,7 @@ RULE = ("random glyph-name sets (suffixes, ligature underscores, names colliding
 ASSUMPTIONS = ["names are compared as code point sequences", "static fonts; the variable-font path uses the same PostProcessor (covered by C10 cases with production names)"]
 
 POOL = [("A", 0x41), ("B", 0x42), ("a", 0x61), ("a.alt", None), ("a.sc", None), ("f", 0x66), ("i", 0x69), ("f_i", None), ("f_i.alt", None),
-        ("uni0041", None), ("uni0041.1", None), ("A.1", None), ("A.1.1", None), ("x" * 70, None), ("emoji", 0x1F600), ("e_moji", None), ("f_emoji", None), ("emoji_f_i", None), ("emoji_emoji.alt", None),
+        ("uni0041", None), ("uni0041.1", None), ("A.1", None), ("A.1.1", None), ("x" * 70, None), ("a.sc.alt", None), ("q.sc", 0x51), ("q.sc.alt", None), ("a.sc.alt.x", None), ("emoji", 0x1F600), ("e_moji", None), ("f_emoji", None), ("emoji_f_i", None), ("emoji_emoji.alt", None),
         ("space", 0x20), ("f_f_i", None), ("a-b", None), ("f-i.alt", None), ("c+d", 0x63), ("Aring-ko", 0xC5), ("a_a.alt", None), ("Aacute", 0xC1), ("Aacute.ss01", None)]
 PS_VALUES = ["Alpha", "Alpha", "Alpha.1", "uni0041", "we!rd(name)", "", "x" * 70, "A", "A.1", "B", "ok_name", "é", "a.alt"]
 
@@ -46,6 +46,11 @@ def cases(tier, seed):
             items = [it for it in items if it[0] not in {c[0] for c in chain}]
             pos = rng.randint(0, len(items))
             items[pos:pos] = chain
+        if rng.random() < 0.25:
+            # several dot-suffixes: the base of 'a.sc.alt' is 'a.sc' (which may have a code point of its own), not 'a'
+            want = [("a", 0x61), ("a.sc", 0x1D00 if rng.random() < 0.6 else None), ("a.sc.alt", None)] + ([("q.sc", 0x51), ("q.sc.alt", None)] if rng.random() < 0.5 else [])
+            items = [it for it in items if it[0] not in {w[0] for w in want}] + want
+            rng.shuffle(items)
         names = [nm for nm, _ in items]
         glyphs = {}
         for gi, (nm, cp) in enumerate(items):
